@@ -1,12 +1,13 @@
 /-
 Line-protocol driver for C05.
-request : trace <H|N|S> <nfiles> [c<k>|-] <layer>,<layer>,…
+request : trace <H|N|S|G> <nfiles> [c<k>|-] <layer>,<layer>,…
           layer = E (history entry with EmptyLayer)  |  L/<op>/<op>…  (one op per file)
           op    = k (file untouched) | d (whiteout) | w<digits> (file rewritten with these packages, in this order;
                   a digit d in 1..8 is the package p<(d-1)%4+1> at version (d-1)/4+1: ids d and d+4 share their name)
                 | s<digits> (location replaced by a symlink to a list with these packages)
           c<k>  = the context is cancelled once the trace has made k re-extractions (k ≥ 1); - or absent = never
-          history mode: H = one history entry per layer (CreatedBy "cmd<i>"), N = no history, S = last entry dropped
+          history mode: H = one history entry per layer (CreatedBy "cmd<i>"), N = no history, S = last entry dropped,
+          G = one extra non-empty entry appended
 reply   : n=<chain layers> pk=<tok>,<tok>…  spec=<tok>,…  al=<ord|e>:<hex cmd|->,…   (pk/spec sorted; "-" when empty)
           al = the chain layers the SPECIFICATION prescribes (`Spec.specChain`), one entry per chain layer in order:
                ordinal of its v1 layer (e = empty layer) and its command; the check holds the implementation's
@@ -64,7 +65,8 @@ def run (mode : String) (nf : Nat) (cancelAt : Option Nat) (ls : String) : Strin
       | some layers =>
         let full : List HEntry := (List.range layers.length).map fun i =>
           ⟨(layers.getD i none).isNone, s!"cmd{i}"⟩
-        let hist := if mode = "H" then full else if mode = "N" then [] else full.dropLast
+        let hist := if mode = "H" then full else if mode = "N" then []
+          else if mode = "G" then full ++ [⟨false, "ghost"⟩] else full.dropLast
         let v1 : List (List Op) := layers.filterMap id
         match initChain v1.length hist with
         | none => "loaderr"
@@ -92,7 +94,7 @@ def run (mode : String) (nf : Nat) (cancelAt : Option Nat) (ls : String) : Strin
           s!"n={n} pk={joinWith "," (sortStr toks)} spec={joinWith "," (sortStr spec)} al={joinWith "," al}"
 
 def handle (line : String) : String :=
-  let okMode (m : String) := m = "H" || m = "N" || m = "S"
+  let okMode (m : String) := m = "H" || m = "N" || m = "S" || m = "G"
   match line.splitOn " " with
   | ["trace", mode, nf, ls] =>
     match nf.toNat? with
